@@ -21,7 +21,7 @@ alloy::sol! {
     function getLockedPkscript(bytes pkscript, uint256 lock_block_count) returns (bytes locked_pkscript);
 }
 
-const KINDS: [&str; 12] = ["sstore", "sload+log", "loop", "call-child", "create", "sha256", "locked-pkscript", "revert", "return", "invalid", "number", "blockhash"];
+const KINDS: [&str; 13] = ["sstore", "sload+log", "loop", "call-child", "create", "sha256", "locked-pkscript", "revert", "return", "invalid", "number", "blockhash", "env"];
 
 fn program(stmts: &[usize]) -> Vec<u8> {
     let mut a = Asm::new();
@@ -77,9 +77,25 @@ fn program(stmts: &[usize]) -> Vec<u8> {
                 // NUMBER -> mem[0] (the height being built is part of what a simulation must predict)
                 a.op(0x43).push(0).op(0x52);
             }
-            _ => {
+            11 => {
                 // BLOCKHASH(NUMBER - 1) -> mem[0]
                 a.push(1).op(0x43).op(0x03).op(0x40).push(0).op(0x52);
+            }
+            _ => {
+                // every environment value the statement does not exclude, hashed into mem[0]: ADDRESS, ORIGIN,
+                // CALLER, CALLVALUE, GASPRICE, COINBASE, GASLIMIT, CHAINID, SELFBALANCE, BASEFEE, BLOBBASEFEE,
+                // BALANCE(ORIGIN), EXTCODESIZE(CALLER), EXTCODEHASH(ORIGIN), BLOCKHASH(NUMBER - 2)
+                let mut i = 0u64;
+                for ops in [&[0x30u8][..], &[0x32], &[0x33], &[0x34], &[0x3a], &[0x41], &[0x45], &[0x46], &[0x47], &[0x48], &[0x4a], &[0x32, 0x31], &[0x33, 0x3b], &[0x32, 0x3f]] {
+                    for o in ops {
+                        a.op(*o);
+                    }
+                    a.push(0x80 + 32 * i).op(0x52);
+                    i += 1;
+                }
+                a.push(2).op(0x43).op(0x03).op(0x40).push(0x80 + 32 * i).op(0x52);
+                i += 1;
+                a.push(32 * i).push(0x80).op(0x20).push(0).op(0x52);
             }
         }
     }
@@ -421,6 +437,24 @@ pub fn worker(which: &str, tier: &str, shard: u64, nshards: u64, budget_s: f64) 
                 if st.violations.len() > 25 {
                     st.complete = false;
                     break 'outer;
+                }
+            }
+            // C17: a simulated creation runs at the address the real deployment gets (init code that bakes
+            // ADDRESS, CALLER, ORIGIN and CODESIZE-independent environment into the runtime code), for a used
+            // and for a never-used deployer
+            if which == "C17" && pi % 64 == 0 {
+                for pk in [2u8, 9] {
+                    // ADDRESS -> mem[0], CALLER -> mem[32], ORIGIN -> mem[64], CHAINID -> mem[96]; return 128 bytes
+                    let bake: Vec<u8> = vec![0x30, 0x5f, 0x52, 0x33, 0x60, 0x20, 0x52, 0x32, 0x60, 0x40, 0x52, 0x46, 0x60, 0x60, 0x52, 0x60, 0x80, 0x5f, 0xf3];
+                    let (bs, bdata) = sim(&mut a, &addr_s(pk_addr(pk)), None, &bake);
+                    let mut w = worlds[0].clone();
+                    let (rc, _) = submit(&mut a, &mut w, &TxSpec::Deploy { pk, code: bake.clone(), len: DEFAULT_LEN });
+                    let installed = rc["contractAddress"].as_str().and_then(|c| a.call("eth_getCode", json!([c])).result().and_then(|x| x.as_str().map(|s| s.to_string()))).unwrap_or_default();
+                    st.creations += 1;
+                    if !bs || rc["status"].as_str() != Some("0x1") || bdata.trim_start_matches("0x") != installed.trim_start_matches("0x") || installed.len() < 100 {
+                        st.violations.push(mk("simulated-creation-differs", format!("environment-baking init code deployed by pkscript {} after {}", pk, pname), format!("eth_call creation returned ({}, {}) but the deployment (status {}) installed {}", bs, trunc(&bdata, 300), rc["status"], trunc(&installed, 300))));
+                    }
+                    a.call("brc20_clearCaches", json!([]));
                 }
             }
         }
